@@ -159,6 +159,20 @@ class Session:
             st.samples.append(dict(label=label, kind=kind, result=res, **sample))
         return res, model
 
+    def retract(self, label, kind='', core=True):
+        """Undo the bookkeeping of an attempt that came back 'unknown' and is about to be re-tried with an
+        equivalent, easier encoding (the re-try is counted as the obligation)."""
+        st = self.stats
+        st.obligations -= 1
+        st.undecided -= 1
+        st.kinds[kind] = st.kinds.get(kind, 1) - 1
+        if core:
+            st.core_undecided -= 1
+        note = 'undecided%s: %s' % (' (core)' if core else '', label)
+        if note in st.notes:
+            st.notes.remove(note)
+        st.retried = getattr(st, 'retried', 0) + 1
+
     def expect_sat(self, label, cons, kind='', core=True, timeout_ms=None):
         """Non-vacuity / expressiveness obligations: the query must be sat."""
         st = self.stats
